@@ -31,8 +31,10 @@ def gen_cases(tier, seed):
     for kind in ("mem", "redis", "rabbit"):
         combos = [(n, mix, mode) for n in LENGTHS for mix in MIXES for mode in ("all", "reject")] + [(n, mix, "steady") for n in (12, 25) for mix in MIXES]
         if tier == "quick":
-            rnd.shuffle(combos)
-            combos = combos[:26]
+            # every long (>= fetch window) case, a third of the short ones
+            short = [c for c in combos if c[0] < 9]
+            rnd.shuffle(short)
+            combos = [c for c in combos if c[0] >= 9] + short[:8]
         reps = 1 if tier == "quick" else 3
         for rep in range(reps):
             for n, mix, mode in combos:
